@@ -20,13 +20,19 @@ open NeoModel.Mpt (Node Path toNibbles fromNibbles lookup)
 /-- server.go:1600-1605. -/
 def makeStorageKey (id : Nat) (key : Bytes) : Bytes := Find.le32 id ++ key
 
-/-- getstate: `none` = "invalid key: ... not found". -/
+/-- mpt.MaxKeyLength (extension.go:20). -/
+def maxKeyLength : Nat := 68
+
+/-- getstate: `none` = "invalid key: ... not found" or the "key is too big" error of `Trie.Get`
+(trie.go:78: `len(key) > MaxKeyLength`, the key being `id ‖ key`). -/
 def getState (t : Node) (id : Nat) (key : Bytes) : Option Bytes :=
-  lookup t (toNibbles (makeStorageKey id key))
+  if (makeStorageKey id key).length > maxKeyLength then none
+  else lookup t (toNibbles (makeStorageKey id key))
 
 /-- getproof: the key with the id and the proof nodes; `none` = ErrUnknownStorageItem. -/
 def getProof (H : Bytes → Bytes) (t : Node) (id : Nat) (key : Bytes) : Option (Bytes × List Bytes) :=
-  (Mpt.getProof H t (toNibbles (makeStorageKey id key))).map fun ps => (makeStorageKey id key, ps)
+  if (makeStorageKey id key).length > maxKeyLength then none          -- proof.go:16
+  else (Mpt.getProof H t (toNibbles (makeStorageKey id key))).map fun ps => (makeStorageKey id key, ps)
 
 /-- verifyproof: `none` = ErrInvalidProof. -/
 def verifyProof (H : Bytes → Bytes) (root : Bytes) (pk : Bytes × List Bytes) : Option Bytes :=
@@ -35,7 +41,8 @@ def verifyProof (H : Bytes → Bytes) (root : Bytes) (pk : Bytes × List Bytes) 
   | _ => none
 
 inductive FindErr where
-  | keyPrefix          -- "key doesn't match prefix"
+  | keyPrefix          -- "key doesn't match prefix" (invalid params)
+  | tooLong            -- Trie.Find refuses the prefix / start length (trie.go:592-597): internal error
   deriving DecidableEq, Repr
 
 structure FindRes where
@@ -74,6 +81,11 @@ def findStatesFrom (t : Node) (id : Nat) (pfx : Bytes) (frm : Option Bytes) (cou
 def findStates (t : Node) (id : Nat) (pfx : Bytes) (key : Option Bytes) (count : Nat) : Except FindErr FindRes :=
   match cutStart pfx key with
   | .error e => .error e
-  | .ok frm => .ok (findStatesFrom t id pfx frm count)
+  | .ok frm =>
+    -- trie.go:592-597: `len(prefix) > MaxKeyLength`, `len(from) > MaxKeyLength-len(prefix)` (an error
+    -- that is not ErrNotFound: internal server error)
+    if (makeStorageKey id pfx).length > maxKeyLength ∨
+        (frm.getD []).length > maxKeyLength - (makeStorageKey id pfx).length then .error .tooLong
+    else .ok (findStatesFrom t id pfx frm count)
 
 end NeoModel.StateCommit.Rpc
